@@ -108,6 +108,9 @@ func genFilter(r *core.Rand, kind byte, val any, allowRef bool) gfilter {
 				f.args = append(f.args, "0x"+hex.EncodeToString(r.Bytes(max(len(v), 1))))
 			}
 		}
+		for i, a := range f.args {
+			f.args[i] = respell(r, a)
+		}
 	case 's':
 		v := val.(string)
 		f.op = core.Pick(r, strOps)
@@ -510,6 +513,9 @@ func runRows(e *core.Env, prop string) error {
 				default:
 					g.args = append(g.args, core.Pick(r, []string{"0x", "0x" + hex.EncodeToString(r.Bytes(21)), hex.EncodeToString(laddr)}))
 				}
+			}
+			for i, a := range g.args {
+				g.args[i] = respell(r, a)
 			}
 			bfl["log_addr"] = g
 			if r.Bool() {
@@ -923,7 +929,7 @@ func runRows(e *core.Env, prop string) error {
 						addrs := fltr.Addresses()
 						in := len(addrs) == 0
 						for _, a := range addrs {
-							in = in || strings.EqualFold(strings.TrimPrefix(a, "0x"), hex.EncodeToString(laddr))
+							in = in || bytes.Equal(hexRef(a), laddr)
 						}
 						v := "ok"
 						if !in {
@@ -939,7 +945,7 @@ func runRows(e *core.Env, prop string) error {
 				// addresses and matches them exactly: the log's own address must be among them or it is never fetched
 				in := false
 				for _, a := range pushed {
-					in = in || strings.EqualFold(strings.TrimPrefix(a, "0x"), hex.EncodeToString(laddr))
+					in = in || bytes.Equal(hexRef(a), laddr)
 				}
 				verdict := "ok"
 				if !in {
@@ -1176,9 +1182,12 @@ func runRows(e *core.Env, prop string) error {
 				modes = append(modes, "log")
 			}
 			for _, m := range modes {
+				upper := r.Chance(1, 3) // the node writes its hex strings with the digits A-F
+				simnode.UpperDigits.Store(upper)
 				res, detail := e2eFields(node, chain, m, fs)
-				e.Add(core.Case{Impl: res, Spec: "ok", Key: "e2e " + m + " " + strings.Join(fs, ","), Nontrivial: true,
-					Tags: []string{"e2e", "mode=" + m}, Detail: detail})
+				simnode.UpperDigits.Store(false)
+				e.Add(core.Case{Impl: res, Spec: "ok", Key: fmt.Sprintf("e2e %s %s upper=%v", m, strings.Join(fs, ","), upper), Nontrivial: true,
+					Tags: []string{"e2e", "mode=" + m, fmt.Sprintf("node-writes-upper-case-hex=%v", upper)}, Detail: detail})
 			}
 		}
 	}
@@ -1186,3 +1195,38 @@ func runRows(e *core.Env, prop string) error {
 }
 
 func quoteImpl(s string) string { return strings.ReplaceAll(s, " ", "#") }
+
+// respell: the same hex argument in another accepted spelling — upper-case or mixed-case digits (EIP-55
+// checksummed addresses are written that way), the 0X prefix
+func respell(r *core.Rand, a string) string {
+	switch r.Intn(5) {
+	case 0:
+		b := []byte(a)
+		for k := range b {
+			if b[k] >= 'a' && b[k] <= 'f' && r.Bool() {
+				b[k] -= 'a' - 'A'
+			}
+		}
+		return string(b)
+	case 1:
+		if strings.HasPrefix(a, "0x") {
+			return "0X" + strings.ToUpper(a[2:])
+		}
+	}
+	return a
+}
+
+// hexRef: the bytes a well-formed hex argument denotes (nil when it is not well formed)
+func hexRef(a string) []byte {
+	if len(a) >= 2 && (a[:2] == "0x" || a[:2] == "0X") {
+		a = a[2:]
+	}
+	if len(a)%2 == 1 {
+		a = "0" + a
+	}
+	b, err := hex.DecodeString(a)
+	if err != nil {
+		return nil
+	}
+	return b
+}
